@@ -44,7 +44,9 @@ func (tr *Tr) canInline(fr *frame, fn *ssa.Function) bool {
 		// synthetic wrappers / instantiations
 		return fn.Synthetic != "" && fn.Recover == nil
 	}
-	if fn.Recover != nil {
+	if fn.Recover != nil && callsRecover(fn) {
+		// a function that recovers from panics changes control flow in a way the translation does not
+		// follow; one that merely defers calls (its recover block is unreachable) is inlined like any other
 		return false
 	}
 	if fn.Pkg.Pkg.Path() == "math" {
@@ -55,6 +57,40 @@ func (tr *Tr) canInline(fr *frame, fn *ssa.Function) bool {
 		}
 	}
 	return inModule(fn) || inlineStdlib[fn.Pkg.Pkg.Path()]
+}
+
+// callsRecover: the function (or a closure it defers) calls the builtin recover
+func callsRecover(fn *ssa.Function) bool {
+	var walk func(f *ssa.Function, depth int) bool
+	walk = func(f *ssa.Function, depth int) bool {
+		for _, b := range f.Blocks {
+			for _, ins := range b.Instrs {
+				var cc *ssa.CallCommon
+				switch x := ins.(type) {
+				case *ssa.Call:
+					cc = &x.Call
+				case *ssa.Defer:
+					cc = &x.Call
+				}
+				if cc == nil {
+					continue
+				}
+				if bi, ok := cc.Value.(*ssa.Builtin); ok && bi.Name() == "recover" {
+					return true
+				}
+				if mc, ok := cc.Value.(*ssa.MakeClosure); ok && depth < 3 {
+					if cf, ok := mc.Fn.(*ssa.Function); ok && walk(cf, depth+1) {
+						return true
+					}
+				}
+				if cf, ok := cc.Value.(*ssa.Function); ok && depth < 3 && cf.Parent() != nil && walk(cf, depth+1) {
+					return true
+				}
+			}
+		}
+		return false
+	}
+	return walk(fn, 0)
 }
 
 func carriesRefs(t types.Type, seen map[types.Type]bool) bool {
